@@ -59,17 +59,18 @@ theorem latency_input (v : Variant) (L J : Int) (h : LatOK L J) (st : StubSt) (c
   by_cases hj : J > 0
   · have hw2 : wrap64 (J * 2) = J * 2 := wrap64_id _ (by omega) jw
     have hn : ¬ (J * 2 ≤ 0) := by omega
+    have hJ : J ≤ Int.tdiv maxInt64 2 := by
+      have : Int.tdiv maxInt64 2 = 4611686018427387903 := by decide
+      omega
     cases draws with
     | nil =>
       have : delayMs L J [] = L - J := by simp [delayMs, hj]
-      simp only [hj, if_true, hw2, hn, if_false]
       rw [this] at hwd ⊢
-      simp [hwd]
+      cases v <;> simp [hj, hJ, hw2, hn, hwd]
     | cons d ds =>
       have : delayMs L J (d :: ds) = L + d % (J * 2) - J := by simp [delayMs, hj]
-      simp only [hj, if_true, hw2, hn, if_false]
       rw [this] at hwd ⊢
-      simp [hwd]
+      cases v <;> simp [hj, hJ, hw2, hn, hwd]
   · have : delayMs L J draws = L := by simp [delayMs, hj]
     simp only [hj, if_false]
     rw [this] at hwd ⊢
